@@ -418,13 +418,13 @@ func (e *kvElection) becomeLeader(token string, rev uint64) {
 	e.wg.Add(1)
 	go func() {
 		defer e.wg.Done()
-		e.heartbeatLoop(e.ctx)
+		e.heartbeatLoop(e.ctx, token)
 	}()
 
 	e.wg.Add(1)
 	go func() {
 		defer e.wg.Done()
-		e.validationLoop(e.ctx)
+		e.validationLoop(e.ctx, token)
 	}()
 
 	if e.onPromote != nil {
